@@ -160,10 +160,9 @@ class PipelineData(np.ndarray):
                 raise ValueError('Cannot slice time using fancy indexing')
         else:
             if time_slice.start is not None:
-                if time_slice.start > 0:
-                    obj.s0 += time_slice.start
-                elif time_slice.start < 0:
-                    obj.s0 = self.s0 + self.n_time + time_slice.start
+                # First selected sample, clamped to the array the same way
+                # the data itself is (e.g., x[-13:] on 10 samples starts at 0).
+                obj.s0 = self.s0 + time_slice.indices(self.n_time)[0]
             if time_slice.step is not None:
                 obj.fs /= time_slice.step
 
